@@ -9,6 +9,7 @@
  *   replay_cop strser <len> <buf_size> <alloc> [hexdata]   string of <len> bytes (hexdata cycled) serialised into an <alloc>-byte object
  *   replay_cop strrt  <len> [hexdata]                      string round trip
  *   replay_cop hdr    <hexbytes> [chunk]                   cop_recv_header over a real pipe whose peer delivers the bytes (chunked) then closes
+ *   replay_cop nest   <depth>                              <depth> nested one-element arrays around a void (6*depth+1 bytes): recursion depth of the deserialiser
  *   replay_cop args   <n> <len>                            C15.reqbuf: n string arguments of len bytes against the 8192-byte request buffer rule
  *
  * exit 0 = real code behaved; 1 = postcondition violated; sanitizer abort / signal = non-zero.
@@ -21,6 +22,9 @@
 #include "nanovm/cop_protocol.h"
 #include "spec_cop.h"
 #define MINSZ(a, b) ((a) < (b) ? (a) : (b))
+
+/* an allocation the real allocator refuses must come back as NULL (as it does without the sanitizer), not abort the replay */
+const char *__asan_default_options(void) { return "allocator_may_return_null=1:detect_leaks=0"; }
 
 static size_t unhex(const char *hx, uint8_t *dst, size_t cap)
 {
@@ -137,6 +141,17 @@ int main(int argc, char **argv)
         bool ok = cop_recv_header(fds[0], h);
         printf("cop_recv_header(%s) = %d version=%u type=0x%02x payload_len=%u\n", argv[2], ok, h->version, h->msg_type, h->payload_len);
         if (ok && !(n >= 8 && h->version == COP_PROTO_VERSION && h->payload_len <= COP_MAX_PAYLOAD)) { printf("POST violated: accepted header is not version 1 with payload_len <= COP_MAX_PAYLOAD\n"); bad = 1; }
+    } else if (!strcmp(argv[1], "nest") && argc >= 3) {
+        uint32_t depth = (uint32_t)strtoul(argv[2], 0, 0);
+        uint32_t n = 6 * depth + 1;
+        uint8_t *buf = malloc(n);
+        for (uint32_t d = 0; d < depth; d++) { uint8_t *q = buf + 6 * d; q[0] = TAG_ARRAY; q[1] = TAG_ARRAY; q[2] = 1; q[3] = q[4] = q[5] = 0; }
+        buf[n - 1] = TAG_VOID;
+        NanoValue *out = calloc(1, sizeof *out);
+        printf("deserialising %u bytes (<= COP_MAX_PAYLOAD %u): %u nested arrays\n", n, COP_MAX_PAYLOAD, depth); fflush(stdout);
+        uint32_t r = cop_deserialize_value(buf, n, out, &heap);
+        printf("cop_deserialize_value = %u\n", r);
+        if (r != n) { printf("POST violated: well-formed nested message not consumed\n"); bad = 1; }
     } else if (!strcmp(argv[1], "args") && argc >= 4) {
         /* the request-building rule of vm_ffi_call_cop replayed on the real serialiser: 6 header bytes + args into uint8_t payload[8192] */
         int n = atoi(argv[2]); uint64_t len = strtoull(argv[3], 0, 0);
